@@ -47,6 +47,7 @@ import (
 	"bytes"
 	"context"
 	"fmt"
+	"os"
 	"sort"
 	"strconv"
 	"strings"
@@ -806,6 +807,9 @@ func (s *storeRun) exec(op string) string {
 		pSnap := p.snap
 		newRoot, changes, deletes, startRoot := c.mpt.GetChanges()
 		overlap := adversarialOrder(changes)
+		if os.Getenv("VERIF_MERGE_MAPORDER") != "" {
+			overlap = false // diagnostic: let MergeMPTChanges use Go's map order also in the overlap case
+		}
 		out := guard(func() string {
 			var err error
 			if overlap {
